@@ -1,9 +1,13 @@
 (* conversions between OCaml values and the extracted Coq datatypes *)
+
+(* short names for the binary number types (separate extraction calls them coq_N / coq_Z) *)
+type n = coq_N
+type z = coq_Z
 open Model
 
-let rec pos_of_int i = if i = 1 then XH else if i land 1 = 0 then XO (pos_of_int (i lsr 1)) else XI (pos_of_int (i lsr 1))
+let rec pos_of_int i = if i = 1 then Coq_xH else if i land 1 = 0 then Coq_xO (pos_of_int (i lsr 1)) else Coq_xI (pos_of_int (i lsr 1))
 let n_of_int i = if i = 0 then N0 else Npos (pos_of_int i)
-let rec int_of_pos = function XH -> 1 | XO p -> 2 * int_of_pos p | XI p -> 2 * int_of_pos p + 1
+let rec int_of_pos = function Coq_xH -> 1 | Coq_xO p -> 2 * int_of_pos p | Coq_xI p -> 2 * int_of_pos p + 1
 let int_of_n = function N0 -> 0 | Npos p -> int_of_pos p
 let rec nat_of_int i = if i <= 0 then O else S (nat_of_int (i - 1))
 let rec int_of_nat = function O -> 0 | S n -> 1 + int_of_nat n
@@ -11,7 +15,7 @@ let z_of_int i = if i = 0 then Z0 else if i > 0 then Zpos (pos_of_int i) else Zn
 let int_of_z = function Z0 -> 0 | Zpos p -> int_of_pos p | Zneg p -> - (int_of_pos p)
 
 (* arbitrary-precision decimal <-> Z, for values beyond OCaml's 63-bit int *)
-let z_of_string (s : string) : z =
+let z_of_string (s : string) : coq_Z =
   let neg = String.length s > 0 && s.[0] = '-' in
   let digits = if neg then String.sub s 1 (String.length s - 1) else s in
   let ten = Zpos (pos_of_int 10) in
@@ -19,7 +23,7 @@ let z_of_string (s : string) : z =
   String.iter (fun c -> acc := Z.add (Z.mul !acc ten) (z_of_int (Char.code c - 48))) digits;
   if neg then Z.opp !acc else !acc
 
-let string_of_z (z : z) : string =
+let string_of_z (z : coq_Z) : string =
   let ten = Zpos (pos_of_int 10) in
   let rec go z acc =
     if z = Z0 then acc
